@@ -21,6 +21,30 @@ func runC01(ctx *Ctx) {
 			contractCase(ctx, 900000+c, ctx.Sub(900000+c), "keepalive", "c01-")
 		}
 	}
+	// unit charges at the word boundaries of the arithmetic (2^32, 2^63, 2^64, 2^65, 2^128): earn
+	// them, link, withdraw, withdraw again -- every amount is an amount
+	for k, price := range []string{"4294967296", "9223372036854775808", "18446744073709551616", "36893488147419103232", "340282366920938463463374607431768211456"} {
+		for drv := 0; drv < 2; drv++ {
+			i := 800000 + 2*k + drv
+			if !ctx.Want(i) {
+				continue
+			}
+			cfg := worldCfg{Drv: drv, Price: price, IntervalNs: 60e9, Settle: true}
+			ops := []*POp{{Op: "connect", Node: "h1", Host: true, Kind: "geth"}, {Op: "connect", Node: "c1", Kind: "geth"},
+				{Op: "addnode", Wallet: "w1", Node: "h1"},
+				{Op: "update", Node: "c1", Peers: []string{"h1"}, Elapsed: 0},
+				{Op: "update", Node: "c1", Peers: []string{"h1"}, Elapsed: 60e9},
+				{Op: "withdraw", Wallet: "w1", Settle: true},
+				{Op: "withdraw", Wallet: "w1", Settle: true},
+				{Op: "update", Node: "c1", Peers: []string{"h1"}, Elapsed: 120e9},
+				{Op: "addnode", Wallet: "w2", Node: "c1"},
+				{Op: "withdraw", Wallet: "w1", Settle: false},
+				{Op: "withdraw", Wallet: "w1", Settle: true},
+				{Op: "withdraw", Wallet: "w2", Settle: true}}
+			coq, mon, done := runPoolSeq(cfg, ops)
+			ctx.Emit(Case{I: i, Kind: "word-boundary-units-" + driverNames[drv], Coq: coq, Desc: poolDesc{cfg, done}, Monitor: mon})
+		}
+	}
 	nseq := ctx.N(150, 4000)
 	var wg sync.WaitGroup
 	sem := make(chan struct{}, 12)
